@@ -161,7 +161,7 @@ def try_refute(prop, v, repo, seed):
     if unit in ("S64", "S32"):
         r = refute_scalar(64 if unit == "S64" else 32, name, repo, seed)
         return r if r is not None else refute_papi(unit, name, repo, seed)
-    if unit in ("ED", "RIS", "MONT", "SG", "SGR", "SM", "SM2", "SIG", "FG", "GRP", "MSM", "VSM", "VMSM", "AVX2E", "AVX2F", "BATCH", "K-SERDE", "RIS2", "SMNT", "BV", "IFMAE", "IFMAF", "TRS", "HW", "RND"):
+    if unit in ("ED", "RIS", "MONT", "SG", "SGR", "SM", "SM2", "SIG", "FG", "GRP", "MSM", "VSM", "VMSM", "AVX2E", "AVX2F", "BATCH", "K-SERDE", "RIS2", "SMNT", "BV", "IFMAE", "IFMAF", "TRS", "HW", "RND", "FF64", "FF32"):
         return refute_papi(unit, name, repo, seed)
     return None
 
@@ -326,7 +326,7 @@ def _build_papi_locked(repo, backend=None):
     tdir = os.path.join(VERIF, ".work", "replay-target" + ("" if repo.rstrip("/") == "/repo" else "-alt") + ("-" + backend if backend else ""))
     env = dict(os.environ, CARGO_NET_OFFLINE="true")
     if backend:
-        env["RUSTFLAGS"] = (env.get("RUSTFLAGS", "") + ' --cfg curve25519_dalek_backend="%s"' % backend).strip()
+        env["RUSTFLAGS"] = (env.get("RUSTFLAGS", "") + " " + _BACKEND_CFG.get(backend, '--cfg curve25519_dalek_backend="%s"' % backend)).strip()
     r = subprocess.run(["cargo", "build", "--offline", "--target-dir", tdir], cwd=wd, capture_output=True, text=True, env=env)
     if r.returncode != 0:
         return None
@@ -374,7 +374,7 @@ def _scalars(rng, n_random=12):
 
 
 _FAMS = {"ED": ["ed"], "RIS": ["ris"], "MONT": ["mont"], "SG": ["sc"], "S64": ["sc"], "S32": ["sc"], "SGR": ["sc", "edmul"], "SM": ["edmul"], "SM2": ["edmul", "ed"], "MSM": ["edmul"], "VSM": ["edmul"], "VMSM": ["edmul"], "AVX2E": ["ed", "edmul"], "AVX2F": ["ed", "edmul"],
-            "SIG": ["sig", "slices"], "BV": ["sig", "slices"], "K-SERDE": ["serde"], "TRS": ["edmul", "sc"], "HW": ["sc", "ris", "ed"], "RND": ["rnd", "sc", "ris"], "RIS2": ["ris", "edmul"], "SMNT": ["edmul", "sig"], "IFMAE": ["ed", "edmul"], "IFMAF": ["ed", "edmul"], "GRP": ["grp", "ed", "ris", "rnd"], "FG": ["ed", "ris"], "F64": ["ed"], "F32": ["ed"]}
+            "SIG": ["sig", "slices"], "BV": ["sig", "slices"], "K-SERDE": ["serde"], "TRS": ["edmul", "sc"], "HW": ["sc", "ris", "ed"], "RND": ["rnd", "sc", "ris"], "RIS2": ["ris", "edmul"], "SMNT": ["edmul", "sig"], "IFMAE": ["ed", "edmul"], "IFMAF": ["ed", "edmul"], "GRP": ["grp", "ed", "ris", "rnd"], "FG": ["ed", "ris"], "F64": ["ed"], "F32": ["ed"], "FF64": ["ed", "mont", "ris"], "FF32": ["ed", "mont", "ris"]}
 
 
 def families_of(unit):
@@ -386,7 +386,17 @@ def families_of(unit):
 _SERIAL_UNITS = ("SM", "SM2", "MSM", "SGR", "SMNT", "RIS2", "TRS", "BV", "SIG")
 
 
+# the fiat units verify wrapper code that only a fiat build compiles: their native replay is a fiat build of the replay crate
+_BACKEND_CFG = {"fiat32": '--cfg curve25519_dalek_backend="fiat" --cfg curve25519_dalek_bits="32"'}
+_FIAT_UNITS = {"FF64": "fiat", "FF32": "fiat32"}
+
+
 def refute_papi(unit, fn, repo, seed):
+    if unit in _FIAT_UNITS:
+        r = _refute_papi_1(unit, fn, repo, seed, _FIAT_UNITS[unit])
+        if r is not None:
+            r["backend"] = "built with " + _BACKEND_CFG.get(_FIAT_UNITS[unit], '--cfg curve25519_dalek_backend="fiat"')
+        return r
     r = _refute_papi_1(unit, fn, repo, seed, None)
     if r is None and unit in _SERIAL_UNITS:
         r = _refute_papi_1(unit, fn, repo, seed, "serial")
